@@ -23,6 +23,8 @@ from pjrpc.common import generators
 
 NAME = 'client'
 HALVES = ('sync', 'async')
+# the dispatcher the document is served by: sync, async serving coroutines, async serving plain functions
+SERVERS = ((False, None, 'server'), (True, None, 'aserver'), (True, False, 'aserver_plain'))
 SINGLE_NOTATIONS = ['call', 'dunder', 'proxy', 'send', 'notify']
 BATCH_NOTATIONS = ['b_add', 'b_call', 'b_proxy', 'b_getitem']
 
@@ -107,12 +109,20 @@ def call_params(it):
     return dec(it['kwargs']) if it.get('kwargs') else {}
 
 
+def drawn_ids(idgen, n):
+    """the first n ids a fresh generator yields"""
+    if idgen['k'] == 'sequential':
+        start, step = int(idgen['start']), int(idgen['step'])
+        return [start + step * k for k in range(n)]
+    return predraw(idgen, n)
+
+
 def loop_case(notation, items, client=None, idgen=None):
     idgen = idgen or IDGENS[0]
-    start, step = int(idgen['start']), int(idgen['step'])
+    ids = drawn_ids(idgen, len(items) + 1)
     if notation in SINGLE_NOTATIONS:
         it = items[0]
-        rid = None if (notation == 'notify' or it.get('notify')) else start
+        rid = None if (notation == 'notify' or it.get('notify')) else ids[0]
         request = {'kind': 'single', 'req': _req_spec(it['method'], call_params(it), rid)}
         call = notation in ('call', 'dunder', 'proxy')
     else:
@@ -125,7 +135,7 @@ def loop_case(notation, items, client=None, idgen=None):
             if it.get('notify'):
                 reqs.append(_req_spec(it['method'], params, None))
             else:
-                reqs.append(_req_spec(it['method'], params, start + step * k))
+                reqs.append(_req_spec(it['method'], params, ids[k]))
                 k += 1
         request = {'kind': 'batch', 'reqs': reqs}
         call = False
@@ -165,7 +175,12 @@ def generate(tier, rng):
         for cl in clients:
             for notation in SINGLE_NOTATIONS:
                 yield loop_case(notation, [spec(m, args, kwargs, notify=(notation == 'notify'))], cl)
-    gens = [IDGENS[0], IDGENS[2]]
+    # id streams: increasing, decreasing (the order of the ids is not the order of the calls), random integers / strings
+    gens = [IDGENS[0], IDGENS[2], IDGENS[3], IDGENS[6], IDGENS[8]]
+    for g in gens[1:]:
+        for (m, args, kwargs) in calls[:4] + calls[11:15]:
+            for notation in SINGLE_NOTATIONS:
+                yield loop_case(notation, [spec(m, args, kwargs, notify=(notation == 'notify'))], clients[0], g)
     for n in range(1, 5):
         reps = (40 if thorough else 12) if n > 1 else len(calls)
         for r in range(reps):
@@ -177,7 +192,7 @@ def generate(tier, rng):
                 its = [dict(it, notify=False) if notation == 'b_getitem' else it for it in items]
                 if notation == 'b_getitem':
                     its = [spec(it['method'], spec_params(it) if isinstance(spec_params(it), list) else ()) for it in its]
-                yield loop_case(notation, its, rng.choice(clients), rng.choice(gens))
+                yield loop_case(notation, its, rng.choice(clients), gens[r % len(gens)] if n > 1 else rng.choice(gens))
     # batches made only of notifications
     for n in (1, 2, 3):
         items = [spec(rng.choice(['echo', 'fail_rpc', 'nosuch', 'noargs']), (1,) if i % 2 else (), {}, notify=True) for i in range(n)]
@@ -207,18 +222,19 @@ class _Capture:
 class _Loop:
     """transport that hands the text to a real dispatcher"""
 
-    def __init__(self, cfg, server_async):
+    def __init__(self, cfg, server_async, coroutine_methods=None):
         self.cfg, self.server_async, self.sent, self.events = cfg, server_async, [], []
+        self.coroutine_methods = coroutine_methods
 
     def reply(self, text, is_notification):
         self.sent.append((text, is_notification))
-        o = S.dispatch(self.cfg, text, self.server_async)
+        o = S.dispatch(self.cfg, text, self.server_async, coroutine_methods=self.coroutine_methods)
         self.events += o['events']
         return o.get('text')
 
     async def areply(self, text, is_notification):
         self.sent.append((text, is_notification))
-        d = S.build_dispatcher(self.cfg, True)
+        d = S.build_dispatcher(self.cfg, True, coroutine_methods=self.coroutine_methods)
         S.set_bodies(self.cfg)
         del S.LOG[:]
         r = await d.dispatch(text, context=S.CTX)
@@ -333,9 +349,11 @@ def run_impl(c):
                 o['is_notification_flag'] = t.sent[0][1]
             out[half] = o
         else:
-            for server_async in (False, True):
+            for server_async, coro, sname in SERVERS:
                 cl = c['client']
-                t = _Loop(c['server'], server_async)
+                if g['k'] != 'sequential' and 'seed' in g:
+                    pyrandom.seed(g['seed'])
+                t = _Loop(c['server'], server_async, coro)
                 kw2 = dict(kw, **IC.client_kwargs(cl))
                 client = (AsyncC if is_async else SyncC)(t, **kw2)
                 try:
@@ -345,7 +363,7 @@ def run_impl(c):
                     value = {'raised': IC.enc_exc(e)}
                 o = {'wire': enc(json.loads(t.sent[0][0])) if len(t.sent) == 1 else {'n_sent': len(t.sent)},
                      'value': value, 'events': t.events}
-                out[half + ('/aserver' if server_async else '/server')] = o
+                out[half + '/' + sname] = o
     return out
 
 
@@ -369,7 +387,7 @@ def region(prop, c):
 
 
 def impl_keys(c):
-    return HALVES if c['op'] == 'build' else tuple(f'{h}/{s}' for h in HALVES for s in ('server', 'aserver'))
+    return HALVES if c['op'] == 'build' else tuple(f'{h}/{s[2]}' for h in HALVES for s in SERVERS)
 
 
 def project(prop, c, out):
@@ -472,6 +490,12 @@ def oracle(prop, c, out):
             want = expected_value(c)
             if want is not None and o['value'] != want:
                 fail('loopback-value', 'the caller did not obtain what a direct invocation returns / raises', want)
+            wc = expected_code(c)
+            if wc is not None:
+                got = (o['value'].get('raised') or {}).get('rpc') or {}
+                if (got.get('code'), got.get('cls'), got.get('message')) != (str(wc), STD_MESSAGES[wc][0], STD_MESSAGES[wc][1]):
+                    fail('loopback-error-class', 'the caller did not obtain the exception class registered for the code the server answers',
+                         {'code': str(wc), 'cls': STD_MESSAGES[wc][0], 'message': STD_MESSAGES[wc][1]})
             execs = [e['m'] for e in o['events'] if e['e'] == 'exec']
             want_exec = expected_execs(c)
             if want_exec is not None and sorted(execs) != sorted(want_exec):
@@ -560,6 +584,25 @@ def expected_value(c):
             return None
         vals.append(enc(det))
     return {'tuple': vals}
+
+
+def expected_code(c):
+    """the library error a call must come back as (unknown method / parameters that do not bind / arbitrary exception):
+    for a single call, or for a batch, the first failing call when it fails with a library code"""
+    if c['notation'] in SINGLE_NOTATIONS:
+        it = c['items'][0]
+        if c['notation'] == 'notify' or it.get('notify'):
+            return None
+        kind, det = _direct(c, it)
+        return det if kind == 'code' else None
+    for it in c['items']:
+        if it.get('notify'):
+            continue
+        kind, det = _direct(c, it)
+        if kind == 'ok':
+            continue
+        return det if kind == 'code' else None
+    return None
 
 
 def expected_execs(c):
